@@ -1259,7 +1259,7 @@ def ctor_model(self, e, st, spec):
             return z3.BoolVal(v.sort() == R)
         if cname == "int":
             return z3.BoolVal(is_z3(v) and v.sort() == I)
-        if isinstance(v, SList) and cname in ("str", "int"):
+        if isinstance(v, (SList, Tup)) and cname in ("str", "int", "float"):
             return z3.BoolVal(False)
         return NotImplemented
     if name == "list" and len(e.args) == 1:
